@@ -174,6 +174,10 @@ def f_sf(x, d1, d2):
         return float('nan')
     if x <= 0:
         return 1.0
+    # the incomplete beta function is evaluated at the argument that is not rounded towards 1 (for tiny x the complement form would
+    # lose sqrt(eps) for d1 = 1)
+    if d1 * x < d2:
+        return float(1.0 - special.betainc(0.5 * d1, 0.5 * d2, d1 * x / (d1 * x + d2)))
     return float(special.betainc(0.5 * d2, 0.5 * d1, d2 / (d2 + d1 * x)))
 
 
